@@ -16,7 +16,7 @@ from .C06 import fold
 
 MATH = "typhon/math/common.py"
 ATM = "typhon/physics/atmosphere.py"
-EXPECT = {"C14.api": 1, "C14.argorder": 2, "C14.iwv": 3, "C14.crh": 4, "C14.p2h": 4, "C14.isa": 3, "C14.pure": 4}
+EXPECT = {"C14.api": 1, "C14.argorder": 2, "C14.iwv": 3, "C14.crh": 5, "C14.p2h": 4, "C14.isa": 4, "C14.pure": 4}
 
 
 def rule_api(ctx):
@@ -295,7 +295,28 @@ def rule_crh(ctx):
                 a0 = ast.Subscript(value=a0.value, slice=ast.Name(id=iv, ctx=ast.Load()), ctx=ast.Load())
             if isinstance(a0, ast.Subscript) and isinstance(tgt0, ast.Subscript) and isinstance(tgt0.value, ast.Name):
                 esname = a0.value.id if isinstance(a0.value, ast.Name) else a0.value          # a name, or the expression iterated over
-                ok_fill = norm(a0.slice) == iv and norm(tgt0.slice) == iv and norm(a1) == "%s[%s]" % (pn, iv)
+                # the pressure of level i: the pressure argument itself or an array derived from it (asarray / swapaxes), indexed by i
+                pname = None
+                if isinstance(a1, ast.Subscript) and isinstance(a1.value, ast.Name) and norm(a1.slice) == iv:
+                    cand = a1.value.id
+                    src_p = cand
+                    seen_ = set()
+                    while src_p != pn and src_p not in seen_:
+                        seen_.add(src_p)
+                        vals_ = [flow._def_value(d_, src_p) for d_ in flow.defs(src_p, lp) if d_ != "param"]
+                        roots = set()
+                        for v_ in vals_:
+                            b_ = v_
+                            while isinstance(b_, ast.Call) and (isinstance(b_.func, ast.Attribute) and b_.func.attr in ("swapaxes", "transpose", "copy") or dotted(b_.func) in ("np.asarray", "np.array", "np.moveaxis", "np.swapaxes")):
+                                b_ = b_.func.value if isinstance(b_.func, ast.Attribute) and b_.func.attr in ("swapaxes", "transpose", "copy") else b_.args[0]
+                            roots.add(norm(b_) if b_ is not None else None)
+                        roots.discard(src_p)
+                        if len(roots) != 1:
+                            break
+                        src_p = str(list(roots)[0])
+                    if src_p == pn:
+                        pname = cand
+                ok_fill = norm(a0.slice) == iv and norm(tgt0.slice) == iv and pname is not None
                 # the level-wise input is the saturation pressure, the output is what becomes q_s
                 src = flow.resolve(ast.Name(id=esname, ctx=ast.Load()), at=lp, depth=1)
         if esname is None:
@@ -311,11 +332,16 @@ def rule_crh(ctx):
     if not loops or bound is None:
         raise AnalysisError("column_relative_humidity: level loop / bound not found")
     bad = []
+    badp = []
     for ndim, axis in ((1, 0), (2, 0), (2, 1), (3, 2)):
         got, want, first = _shape_model(f, loops[0], bound, ndim, axis, axn, esname)
         if got != want or first != want:
             bad.append({"ndim": ndim, "axis": axis, "loop bound": "size of original axis %s" % got if isinstance(got, int) else str(got),
                         "axis 0 of es in the loop": first, "required": "size of original axis %d" % want})
+        if pname is not None and ndim > 1:
+            _, _, pfirst = _shape_model(f, loops[0], bound, ndim, axis, axn, pname)
+            if pfirst != want:
+                badp.append({"ndim": ndim, "axis": axis, "axis 0 of the pressure array indexed in the loop": pfirst, "required": "original axis %d (the levels)" % want})
     ctx.models.append({"rule": "C14.crh", "cases": 4, "domain": "(ndim, axis) in (1,0),(2,0),(2,1),(3,2)", "exhaustive": False})
     # what is converted to vmr_s is the array filled by the level loop
     tname = loops[0].body[0].targets[0].value.id
@@ -333,6 +359,9 @@ def rule_crh(ctx):
                     feeds = True
     ctx.ob("column_relative_humidity.qs_used", feeds, "saturation vmr from %s; level loop fills %s" % (norm(vs_arg) if vs_arg is not None else None, tname),
            "the saturation vmr is computed from the level-wise q_s", node=vs or f.node, func=f)
+    ctx.ob("column_relative_humidity.pressure_axis", not badp, "pressure of level i taken from %s[i]; mismatches: %s" % (pname, badp or "none"),
+           "a pressure array of the same rank as q is indexed along the level axis (swapped to the front like es and qs), not along its axis 0",
+           node=loops[0], func=f, witness=badp[0] if badp else None)
     ctx.ob("column_relative_humidity.levels", not bad, "loop bound %s; mismatches: %s" % (norm(bound), bad or "none"),
            "the loop runs over exactly the levels along `axis` (es.shape[axis]), the axis that was swapped to the front", node=loops[0], func=f,
            witness=bad[0] if bad else None)
@@ -375,9 +404,17 @@ def _shape_model(f, loop, bound, ndim, axis, axn, esname="es"):
                 v = ev(n.args[0])
                 if v[0] == "shape":
                     return ("arr", v[1])
+            if d in ("np.asarray", "np.array", "np.asanyarray") and n.args:
+                v = ev(n.args[0])
+                if v[0] == "arr":
+                    return v
             if d in ("e_eq_mixed_mk", "specific_humidity2vmr", "np.asarray", "np.array"):
                 return ("arr", ident)
             return ("unknown", t)
+        if isinstance(n, ast.Attribute) and n.attr == "ndim":
+            v = ev(n.value)
+            if v[0] == "arr":
+                return ("int", len(v[1]))
         if isinstance(n, ast.Attribute) and n.attr == "shape":
             v = ev(n.value)
             if v[0] == "arr":
@@ -391,10 +428,12 @@ def _shape_model(f, loop, bound, ndim, axis, axn, esname="es"):
                 return ("arr", v[1][1:])       # X[k]: one element along the first axis
             if v[0] == "shape" and k and k[0] == "int":
                 return ("size", v[1][k[1]])
-        if isinstance(n, ast.Compare) and len(n.ops) == 1 and isinstance(n.ops[0], ast.Eq):
+        if isinstance(n, ast.Compare) and len(n.ops) == 1 and isinstance(n.ops[0], (ast.Eq, ast.NotEq, ast.Gt, ast.GtE, ast.Lt, ast.LtE)):
             l, r = ev(n.left), ev(n.comparators[0])
             if l[0] == r[0] == "int":
-                return ("bool", l[1] == r[1])
+                import operator as _op
+                fn_ = {ast.Eq: _op.eq, ast.NotEq: _op.ne, ast.Gt: _op.gt, ast.GtE: _op.ge, ast.Lt: _op.lt, ast.LtE: _op.le}[type(n.ops[0])]
+                return ("bool", fn_(l[1], r[1]))
         return ("unknown", t)
 
     def run(stmts):
